@@ -68,6 +68,8 @@ SIG_ESC = "walk:escaping-relative-import-not-diagnosed"
 SIG_STAR = "walk:star-import-copies-names-of-another-module"
 SIG_KEY = "walk:import-ir-key-names-another-file"
 SIG_ABS = "walk:absolute-import-mis-resolved"
+# KNOWN (Props/C13 `C13_cex_star_symlink`): the same signature as the locator-level witness (c13links.SIG_STAR)
+SIG_STARLINK = "star-imported-file-behind-symlink-analysed-under-its-resolved-path"
 
 
 def own_name(f):
@@ -415,6 +417,84 @@ def write_project(root: Path, case):
             have[rel] = text
 
 
+# ------------------------------------------------------------------ projects behind symbolic links
+
+LINK_NAMES = ["wl", "w2", "wo", "dd", "ff", "ka", "kb", "kc", "kd"]
+
+
+def link_plan(rng, case):
+    """Which package directories / files of the project are realised as links to places outside every
+    search path, and whether the project root itself is spelled through a link.  The directory a link
+    points to is named after a vocabulary name now and then, so that a suffix of the physical path may
+    happen to name another module of the project."""
+    files = [f["path"] for f in case["files"]]
+    dirs = sorted({tuple(f[:k]) for f in files for k in range(1, len(f))})
+    mods = [f for f in files if len(f) >= 2]
+    R = (case.get("probe") or {}).get("file")
+    picks = []
+    if R and len(R) >= 2 and rng.random() < 0.75:
+        # the probed file behind a link: one of its directories, or the file itself
+        opts = [("dir", list(R[:k])) for k in range(1, len(R))] + [("file", list(R))]
+        picks.append(rng.choice(opts))
+    for _ in range(rng.choice([0, 1, 1, 2]) if picks else rng.choice([1, 1, 2])):
+        if dirs and rng.random() < 0.65:
+            picks.append(("dir", list(rng.choice(dirs))))
+        elif mods:
+            picks.append(("file", list(rng.choice(mods))))
+    plan, seen = [], set()
+    for kind, pth in picks:
+        if tuple(pth) in seen:
+            continue
+        seen.add(tuple(pth))
+        slot = ["ka", "kb", "kc", "kd"][len(plan) % 4]
+        if kind == "dir":
+            plan.append(["dir", pth, [slot, rng.choice(["dd", "dd", pth[-1], "pa", "pb"])]])
+        else:
+            plan.append(["file", pth, [slot, rng.choice(["ff.py", "ff.py", pth[-1], "ma.py"])]])
+    plan.sort(key=lambda e: len(e[1]))       # outer directories first: an inner link then lives inside the outer target
+    return {"links": plan, "root_link": rng.random() < 0.3}
+
+
+def write_linked_project(top: Path, case, plan):
+    """`top/w2`: the project; `top/wo/<slot>/<name>`: where the links point; `top/wl` -> `w2`.
+    Returns (directory to run in, as spelled; the resolved project root)."""
+    import shutil
+    if top.exists():
+        shutil.rmtree(top)
+    real = top / "w2"
+    for i, f in enumerate(case["files"]):
+        p = real.joinpath(*f["path"])
+        p.parent.mkdir(parents=True, exist_ok=True)
+        p.write_text(render_file(i, f))
+    for kind, pth, dst in plan["links"]:
+        src = Path(os.path.realpath(str(real.joinpath(*pth[:-1])))) / pth[-1]
+        if src.is_symlink() or not src.exists():
+            continue
+        d = top.joinpath("wo", *dst)
+        if d.exists():
+            continue
+        d.parent.mkdir(parents=True, exist_ok=True)
+        shutil.move(str(src), str(d))
+        os.symlink(os.path.relpath(str(d), str(src.parent)), str(src))
+    spelled = real
+    if plan["root_link"]:
+        os.symlink("w2", str(top / "wl"))
+        spelled = top / "wl"
+    return spelled, Path(os.path.realpath(str(real)))
+
+
+def phys_rows(real_root: Path, case):
+    """the project files whose fully resolved path is not `<resolved root>/<path as spelled>`"""
+    rows = []
+    for f in case["files"]:
+        spelled = str(real_root) + "/" + "/".join(f["path"])
+        rp = os.path.realpath(spelled)
+        if rp != spelled:
+            segs = [x for x in rp.split("/") if x]
+            rows.append([f["path"], segs[:-1], segs[-1][:-3]])
+    return rows
+
+
 # ------------------------------------------------------------------ implementation side
 
 def rel_file(root: Path, p):
@@ -462,8 +542,9 @@ def template(msg):
     return "other:" + msg[:60]
 
 
-def run_inproc(root: Path, case):
-    """The real parse_and_analyse_file() on the project; every compile_root_context call observed."""
+def run_inproc(root: Path, case, cwd=None):
+    """The real parse_and_analyse_file() on the project; every compile_root_context call observed.
+    `cwd`: the directory to run in as spelled (default: `root`, the resolved project root)."""
     import rattr.analyser.file as F
     import rattr.models.context._root_context as RC
 
@@ -480,7 +561,7 @@ def run_inproc(root: Path, case):
         return ctx
 
     obs = {}
-    with impl.in_dir(str(root)):
+    with impl.in_dir(str(cwd or root)):
         impl.reset_config(target=Path(*case["target"]))
         with impl.Tap() as tap, mock.patch.object(RC, "compile_root_context", hooked), \
                 mock.patch.object(F, "compile_root_context", hooked):
@@ -502,10 +583,10 @@ def run_inproc(root: Path, case):
     return obs
 
 
-def run_cli(root: Path, case):
+def run_cli(root: Path, case, cwd=None):
     env = dict(os.environ, PYTHONDONTWRITEBYTECODE="1")
     p = subprocess.run([sys.executable, "-m", "rattr", "-o", "ir", "-w", "all", "/".join(case["target"])],
-                       cwd=str(root), env=env, capture_output=True, text=True, timeout=120)
+                       cwd=str(cwd or root), env=env, capture_output=True, text=True, timeout=120)
     obs = {"exit": p.returncode, "stderr": p.stderr[-1500:], "contexts": [], "events": [],
            "outcome": "ok" if p.returncode == 0 else ("crash" if "Traceback (most recent call last)" in p.stderr else "fatal"),
            "diag_templates": sorted({template(l) for l in p.stderr.splitlines()
@@ -697,10 +778,10 @@ VOCAB = ["pa", "pb", "ma", "mb", "target", "hx", "h1", "k1", "*", "t"]
 FUEL = 400
 
 
-def fragment_errors(world, wdir, is_in_stdlib):
+def fragment_errors(world, wdir, is_in_stdlib, more=()):
     """Facts the model's per-case assumptions rest on (a failure = broken machine, exit 2)."""
     errs = []
-    comps = [c for c in Path(wdir).parts if c not in ("/", "")]
+    comps = [c for c in Path(wdir).parts if c not in ("/", "")] + list(more)
     for c in VOCAB + comps:
         if c != "*" and is_in_stdlib(c):
             errs.append(f"component {c!r} is classified stdlib")
@@ -717,13 +798,17 @@ def file_json(f):
     return {"dir": f["path"][:-1], "stem": f["path"][-1][:-3], "stmts": f["stmts"]}
 
 
-def model_payload(world, wdir, case):
+def model_payload(world, wdir, case, phys=None):
+    """`wdir`: the RESOLVED project root; `phys`: rows of `phys_rows` for a project behind links"""
     roots = world.real_roots(False)
     root_comps = str(wdir).replace("/", ".").split(".")
     tgt = next(f for f in case["files"] if f["path"] == case["target"])
-    return {"roots": [[f["path"] for f in case["files"]]] + [[] for _ in roots[1:]], "stdlib": [],
-            "rootComps": root_comps, "files": [file_json(f) for f in case["files"]], "target": file_json(tgt),
-            "fuel": FUEL}
+    out = {"roots": [[f["path"] for f in case["files"]]] + [[] for _ in roots[1:]], "stdlib": [],
+           "rootComps": root_comps, "files": [file_json(f) for f in case["files"]], "target": file_json(tgt),
+           "fuel": FUEL}
+    if phys:
+        out["phys"] = phys
+    return out
 
 
 def impl_projection(case, obs):
@@ -768,10 +853,26 @@ def cli_sample(cases, tier, rng):
     return want
 
 
-def judge_case(res, case, obs, mode, orc, mo=None, py_resolve=None):
+def star_exposed(case, orc, phys):
+    """project files behind a link that some `from … import *` of the project resolves to (Python's rule)"""
+    behind = {tuple(r[0]) for r in phys}
+    out = []
+    for f in case["files"]:
+        for st in f["stmts"]:
+            if st["k"] == "from" and st["names"] == [["*", None]]:
+                e = orc.expected_module(f["path"], st)
+                if "ok" in e:
+                    mf = orc.module_file(e["ok"])
+                    if mf is not None and tuple(mf) in behind and mf not in out:
+                        out.append(mf)
+    return out
+
+
+def judge_case(res, case, obs, mode, orc, mo=None, py_resolve=None, links=None):
+    """`links`: {"plan": …, "phys": …} for a project realised behind symbolic links"""
     res.evaluations += 1
-    res.nontrivial.add(common.digest([case["files"], case["target"], mode]))
-    res.count("walk:" + mode)
+    res.nontrivial.add(common.digest([case["files"], case["target"], mode, links and links["plan"]]))
+    res.count("walk:" + mode + (":links" if links else ""))
     res.count("walk-reach:" + case["reach"])
     res.count("walk-outcome:" + obs["outcome"])
     if case.get("probe"):
@@ -782,12 +883,30 @@ def judge_case(res, case, obs, mode, orc, mo=None, py_resolve=None):
     res.count("walk-compile-events", len(obs["events"]))
     res.count("walk-import-irs", max(0, len(obs["contexts"]) - 1))
     vcase = dict(case, mode=mode)
+    exposed, agree = [], False
+    if links:
+        vcase["links"] = links["plan"]
+        exposed = star_exposed(case, orc, links["phys"])
+        res.count("walk-links:" + ("star-imported-file-behind-link" if exposed else
+                                   "files-behind-links" if links["phys"] else "root-link-only"))
+        if mo is not None and "__error__" not in mo:
+            agree = (impl_projection(case, obs) == model_projection(mo)) if mode == "inproc" \
+                else obs["outcome"] == mo["outcome"]
     for sig, det in orc.judge(obs, mode):
+        if exposed and agree and sig in (SIG_MIS, SIG_REJ, SIG_REJ + ":crash:ValueError",
+                                         SIG_REJ + ":crash:AssertionError", SIG_REJ + ":cli"):
+            # the pinned behaviour of the star-expansion behind a link, exactly as the model predicts it
+            det = dict(det, original_signature=sig, star_imported_behind_link=exposed)
+            sig = SIG_STARLINK
         res.violations.append({"signature": sig, "case": vcase, "detail": det, "impl": {"outcome": obs["outcome"]}})
     if mo is None:
         return
     if "__error__" in mo:
         res.disagreements.append({"case": vcase, "impl": obs["outcome"], "model": mo})
+        return
+    if mode == "cli":
+        if obs["outcome"] != mo["outcome"]:
+            res.disagreements.append({"case": vcase, "differs_in": ["outcome"], "impl": obs["outcome"], "model": mo["outcome"]})
         return
     for r in mo["trace"]:
         own, is_init = own_name(r["file"])
@@ -811,39 +930,100 @@ def judge_case(res, case, obs, mode, orc, mo=None, py_resolve=None):
 
 def run_stage(world, res, tier, seed, model, py_resolve, fs_first_match, is_in_stdlib):
     wdir = world.base / "w"
-    errs = fragment_errors(world, wdir, is_in_stdlib)
+    errs = fragment_errors(world, wdir, is_in_stdlib, more=LINK_NAMES + ["wk"] + [f"q{n}" for n in range(30 if tier == "quick" else 300)])
     if errs:
         res.internal_errors.append({"what": "walk stage: environment outside the model's assumptions", "detail": errs})
         return
     rng = random.Random(seed * 7919 + 13)
     cases = select_cases(tier, seed, rng)
-    outs = model.batch([("import_walk", model_payload(world, wdir, c)) for c in cases])
+    # the same projects realised behind symbolic links (package directories / files linked to places off
+    # the search path, the root spelled through a link): the model predicts them from `phys`
+    linked = link_cases(world, cases, tier, seed)
+    outs = model.batch([("import_walk", model_payload(world, wdir, c)) for c in cases] +
+                       [("import_walk", model_payload(world, lc["real"], lc["case"], lc["phys"])) for lc in linked])
+    for lc, mo in zip(linked, outs[len(cases):]):
+        lc["mo"] = mo
     roots = [wdir] + world.real_roots(False)[1:]
-    import time
-    t0 = time.process_time()
-    for case, mo in zip(cases, outs):
-        write_project(wdir, case)
-        obs = run_inproc(wdir, case)
-        orc = Oracle(case, roots, py_resolve, fs_first_match)
-        judge_case(res, case, obs, "inproc", orc, mo, py_resolve)
-    res.extra["walk_inproc_cpu_s"] = round(time.process_time() - t0, 1)
-    # the same projects through the real CLI (own directories: the runs are concurrent)
+    # the real CLI on a sample of both (own directories; started now, the runs go on while the in-process
+    # runs below keep this process busy)
     picks = cli_sample(cases, tier, rng)
     dirs = []
     for n, i in enumerate(picks):
         d = world.base / f"c{n}"
         write_project(d, cases[i])
         dirs.append(d)
-    with ThreadPoolExecutor(max_workers=4) as ex:
-        cli_obs = list(ex.map(lambda di: run_cli(di[0], cases[di[1]]), zip(dirs, picks)))
+    lpicks = cli_link_sample(linked, tier, rng)
+    jobs = [(d, cases[i], None) for d, i in zip(dirs, picks)] + [(lc["real"], lc["case"], lc["cwd"]) for lc in lpicks]
+    ex = ThreadPoolExecutor(max_workers=4)
+    try:
+        futures = [ex.submit(run_cli, j[0], j[1], j[2]) for j in jobs]
+        import time
+        t0 = time.process_time()
+        for case, mo in zip(cases, outs):
+            write_project(wdir, case)
+            obs = run_inproc(wdir, case)
+            orc = Oracle(case, roots, py_resolve, fs_first_match)
+            judge_case(res, case, obs, "inproc", orc, mo, py_resolve)
+        for lc in linked:
+            obs = run_inproc(lc["real"], lc["case"], cwd=lc["cwd"])
+            orc = Oracle(lc["case"], [lc["cwd"]] + world.real_roots(False)[1:], py_resolve, fs_first_match)
+            judge_case(res, lc["case"], obs, "inproc", orc, lc["mo"], py_resolve, links=lc)
+        res.extra["walk_inproc_cpu_s"] = round(time.process_time() - t0, 1)
+        cli_obs = [f.result() for f in futures]
+    finally:
+        ex.shutdown(wait=True)
     for d, i, obs in zip(dirs, picks, cli_obs):
         orc = Oracle(cases[i], [d] + world.real_roots(False)[1:], py_resolve, fs_first_match)
         judge_case(res, cases[i], obs, "cli", orc)
+    for lc, obs in zip(lpicks, cli_obs[len(picks):]):
+        orc = Oracle(lc["case"], [lc["cwd"]] + world.real_roots(False)[1:], py_resolve, fs_first_match)
+        judge_case(res, lc["case"], obs, "cli", orc, lc["mo"], py_resolve, links=lc)
     res.extra["walk_cases"] = len(cases)
-    res.extra["walk_cli_cases"] = len(picks)
+    res.extra["walk_cli_cases"] = len(picks) + len(lpicks)
+    res.extra["walk_link_cases"] = len(linked)
+
+
+def link_cases(world, cases, tier, seed):
+    """A stratified selection of the stage's projects (every way a file is reached), each realised
+    behind links according to a seeded plan."""
+    rng = random.Random(seed * 15485863 + 5)
+    by_reach = {}
+    for c in cases:
+        if any(len(f["path"]) >= 2 for f in c["files"]):
+            by_reach.setdefault(c["reach"], []).append(c)
+    for v in by_reach.values():
+        rng.shuffle(v)
+    want = 27 if tier == "quick" else 300
+    order = []
+    while len(order) < want and any(by_reach.values()):
+        for reach in sorted(by_reach):
+            if by_reach[reach] and len(order) < want:
+                order.append(by_reach[reach].pop())
+    out = []
+    for n, case in enumerate(order):
+        plan = link_plan(rng, case)
+        top = world.base / "wk" / f"q{n}"
+        cwd, real = write_linked_project(top, case, plan)
+        phys = phys_rows(real, case)
+        if not phys and not plan["root_link"]:
+            continue
+        out.append({"case": case, "plan": plan, "phys": phys, "cwd": cwd, "real": real})
+    return out
+
+
+def cli_link_sample(linked, tier, rng):
+    """linked projects also run through the real CLI: files behind links reached as followed imports first"""
+    pref = [lc for lc in linked if lc["phys"] and lc["case"]["reach"] in ("follow-abs", "follow-plain", "follow-rel", "reexport")]
+    rest = [lc for lc in linked if lc not in pref]
+    n = 2 if tier == "quick" else 24
+    picks = pref[:max(1, n // 2)]
+    picks += rest[:n - len(picks)]
+    return picks
 
 
 def replay_case(world, case, py_resolve, fs_first_match):
+    if case.get("links"):
+        return replay_linked(world, case, py_resolve, fs_first_match)
     wdir = world.base / "w"
     write_project(wdir, case)
     roots = [wdir] + world.real_roots(False)[1:]
@@ -860,4 +1040,37 @@ def replay_case(world, case, py_resolve, fs_first_match):
         a, b = impl_projection(case, obs), model_projection(mo)
         dk = [k for k in a if a[k] != b[k]]
         print("MODEL agrees" if not dk else "MODEL differs in " + json.dumps({k: [a[k], b[k]] for k in dk})[:3000])
+    return 0
+
+
+def replay_linked(world, case, py_resolve, fs_first_match):
+    plan = case["links"]
+    cwd, real = write_linked_project(world.base / "wk" / "q0", case, plan)
+    phys = phys_rows(real, case)
+    for f in case["files"]:
+        if len(f["stmts"]) > 1 or f["path"] == case["target"]:
+            print("  ", "/".join(f["path"]), [render_stmt(s) + f"  #{s['line']}" for s in f["stmts"]])
+    print("target:", "/".join(case["target"]), " mode:", case.get("mode"), " run in:", cwd)
+    print("links:", [f"{'/'.join(p)} -> wo/{'/'.join(d)}" for _k, p, d in plan["links"]], " root spelled through a link:", plan["root_link"])
+    obs = run_cli(real, case, cwd=cwd) if case.get("mode") == "cli" else run_inproc(real, case, cwd=cwd)
+    orc = Oracle(case, [cwd] + world.real_roots(False)[1:], py_resolve, fs_first_match)
+    print("OUTCOME:", obs["outcome"], json.dumps(obs.get("diags", obs.get("diag_templates")))[:600])
+    print("VIOLATIONS (before the known-finding classification):", json.dumps(orc.judge(obs, case.get("mode", "inproc")), indent=1)[:4000])
+    mo = common.Model().batch([("import_walk", model_payload(world, real, case, phys))])[0]
+    agree = False
+    if "__error__" in mo:
+        print("MODEL error", mo)
+    elif case.get("mode") == "cli":
+        print("MODEL outcome:", mo["outcome"])
+        agree = mo["outcome"] == obs["outcome"]
+    else:
+        a, b = impl_projection(case, obs), model_projection(mo)
+        dk = [k for k in a if a[k] != b[k]]
+        agree = not dk
+        print("MODEL agrees" if not dk else "MODEL differs in " + json.dumps({k: [a[k], b[k]] for k in dk})[:3000])
+    exposed = star_exposed(case, orc, phys)
+    print("star-imported files behind a link:", exposed, "-> the violations above are",
+          "the KNOWN finding " + SIG_STARLINK if exposed and agree else
+          "NOT the pinned behaviour of the star-expansion (the model of the pinned code predicts something else)"
+          if exposed else "judged as they stand")
     return 0
